@@ -304,6 +304,8 @@ def repair(rng, t, vals):
     elif ck == "caa":
         n = max(1, len(vals[1]))
         vals[1] = bytes(rng.choice(b"abcxyzABCXYZ0189") for _ in range(n))
+    elif ck == "gpos":
+        vals[0], vals[1], vals[2] = g_float_text(rng, 90), g_float_text(rng, 180), g_float_text(rng, 100000)
     elif ck == "zonemd":
         if vals[1] == 0:
             vals[1] = rng.choice([1, 2, 255])
@@ -658,7 +660,9 @@ def _svcb_strlist(raw):
 
 def m_svcb(cls, rdclass, rdtype, v):
     params = {}
-    for k, raw in v[2]:
+    # the constructor takes a dict in ANY insertion order (to_wire has to sort): insert in
+    # descending key order so that a writer relying on insertion order is exposed
+    for k, raw in reversed(list(v[2])):
         raw = bytes(raw)
         if k == 0:
             if len(raw) % 2:
@@ -832,6 +836,8 @@ def _has_rel(v):
 
 def corners(t):
     out = []
+    if t["kind"] == "schema" and t["check"]["id"] == "gpos":
+        return [(v, None) for v in _c_gpos()]
     if t["kind"] == "schema":
         base = [_typical(fl) for fl in t["writer"]]
         import random
@@ -908,7 +914,9 @@ def _c_apl():
 
 def _c_gpos():
     return [[b"0", b"0", b"0"], [b"-90", b"+180", b"-100.5"], [b"90.0", b"-180.0", b"8848."], [b".5", b"+.25", b"-.0"], [b"12.345678", b"123.456789", b"0.0"],
-            [b"0" * 255, b"0", b"1" * 255]]
+            [b"0" * 255, b"0", b"1" * 255], [b"90." + b"0" * 252, b"180.00000000000001", b"9" * 255],
+            [b"90.00000000000000710542735760100185871124267578125", b"-180.0000000000000142108547152020037174224853515625", b"5."],
+            [b"089.999999999999999999999999", b"+0179.9", b"+.0"]]
 
 
 def _c_loc():
